@@ -116,13 +116,18 @@ Definition fq_text (d : list (list bq)) : list N := [91; 63; 40] ++ q_text d ++ 
 Inductive fstep := FS (x : rstep) | FE (isteps : list rstep) | FC (isteps : list rstep) (o : cmpop) (lit : list N) | FN (isteps : list rstep)
                  | FQ (d : list (list bq))
                  | FR (x : fstep)           (* `..` before a filter: the filter applied to every container below, in pre-order *)
-                 | FCS (isteps : list rstep) (a : nat) (o : cmpop) (b : nat) (lit : list N).   (* a comparison with a / b blanks before / after its operator *)
+                 | FCS (isteps : list rstep) (g0 a : nat) (o : cmpop) (b g1 : nat) (lit : list N)   (* a comparison with blanks: g0 after `?(`, a / b around the operator, g1 before `)` *)
+                 | FES (neg : bool) (g0 gn : nat) (isteps : list rstep) (g1 : nat).   (* an existence test (negated: `!`) with blanks: after `?(`, after `!`, before `)` *)
 Definition scmp_inner (i : list rstep) (a : nat) (o : cmpop) (b : nat) (lit : list N) : list N :=
   64 :: render_steps i ++ blanks a ++ op_text o ++ blanks b ++ lit.
-Definition scmp_text (i : list rstep) (a : nat) (o : cmpop) (b : nat) (lit : list N) : list N :=
-  [91; 63; 40] ++ scmp_inner i a o b lit ++ [41; 93].
+Definition scmp_text (i : list rstep) (g0 a : nat) (o : cmpop) (b g1 : nat) (lit : list N) : list N :=
+  [91; 63; 40] ++ blanks g0 ++ scmp_inner i a o b lit ++ blanks g1 ++ [41; 93].
+Definition fes_inner (neg : bool) (gn : nat) (i : list rstep) (g1 : nat) : list N :=
+  (if neg then 33 :: blanks gn else []) ++ 64 :: render_steps i ++ blanks g1.
+Definition fes_text (neg : bool) (g0 gn : nat) (i : list rstep) (g1 : nat) : list N :=
+  [91; 63; 40] ++ blanks g0 ++ fes_inner neg gn i g1 ++ [41; 93].
 Fixpoint render_fstep (x : fstep) : list N :=
   match x with FS y => render_rstep y | FE i => filt_text i | FC i o lit => cmp_text i o lit | FN i => neg_text i | FQ d => fq_text d
-             | FR y => 46 :: 46 :: render_fstep y | FCS i a o b lit => scmp_text i a o b lit end.
+             | FR y => 46 :: 46 :: render_fstep y | FCS i g0 a o b g1 lit => scmp_text i g0 a o b g1 lit | FES neg g0 gn i g1 => fes_text neg g0 gn i g1 end.
 Definition render_fsteps (l : list fstep) : list N := flat_map render_fstep l.
 Definition fchain_path (l : list fstep) : list N := 36 :: render_fsteps l.
